@@ -141,6 +141,64 @@ fn sub_files(input: &[u8], st: &mut Stats) -> R {
     }
 }
 
+/// Success path with outputs of awkward sizes: the long line is the last one (modules without
+/// functions), sits in the middle, or is followed by a function; line lengths sweep the
+/// neighbourhood of every power of two from 256 to 64 Ki (stdout buffer sizes).
+const SHAPE_BASES: [usize; 9] = [256, 512, 1024, 2048, 4096, 8192, 16384, 32768, 65536];
+const SHAPE_OFFS: usize = 60; // length = base - 48 + off
+const SHAPE_KINDS: usize = 5;
+fn sub_output_shapes(input: &[u8], st: &mut Stats) -> R {
+    let k = idx(input) as usize;
+    if k >= SHAPE_BASES.len() * SHAPE_OFFS * SHAPE_KINDS {
+        return Ok(());
+    }
+    let kind = k % SHAPE_KINDS;
+    let r = k / SHAPE_KINDS;
+    let len = SHAPE_BASES[r / SHAPE_OFFS] - 48 + r % SHAPE_OFFS;
+    let mut w = header_words((1, 5), 1000);
+    w.extend([0x0002_0011, 1]); // OpCapability Shader
+    let with_str = |opc: u32, pre: &[u32], n: usize| -> Vec<u32> {
+        let mut v = vec![opc];
+        v.extend_from_slice(pre);
+        let s: String = (0..n).map(|i| (b'a' + (i % 26) as u8) as char).collect();
+        v.extend(str_words(&s));
+        v[0] |= (v.len() as u32) << 16;
+        v
+    };
+    match kind {
+        0 => w.extend(with_str(7, &[1], len)), // %1 = OpString "..." as the last line
+        1 => w.extend(with_str(330, &[], len)), // OpModuleProcessed "..." as the last line
+        2 => {
+            // %1 = OpTypeStruct %2 %2 ... as the last line (3 characters per member)
+            let n = (len / 3).min(65000);
+            let mut v = vec![30u32, 1];
+            v.extend(std::iter::repeat(2).take(n));
+            v[0] |= (v.len() as u32) << 16;
+            w.extend(v);
+        }
+        3 => {
+            // long line in the middle, short last line
+            w.extend(with_str(7, &[1], len));
+            w.extend(with_str(5, &[1], 3)); // OpName %1 "abc"
+        }
+        _ => {
+            // long line followed by a function with a body
+            w.extend(with_str(7, &[1], len));
+            w.extend([0x0002_0013, 2]); // %2 = OpTypeVoid
+            w.extend([0x0003_0021, 3, 2]); // %3 = OpTypeFunction %2
+            w.extend([0x0005_0036, 2, 4, 0, 3, 0x0002_00f8, 5, 0x0001_00fd, 0x0001_0038]);
+        }
+    }
+    let bytes = words_to_bytes(&w);
+    let before = st.counters.get("files_disassembled").copied().unwrap_or(0);
+    check_file(&bytes, st, &|| format!("output shape kind {} with a line of about {} bytes", kind, len))?;
+    if st.counters.get("files_disassembled").copied().unwrap_or(0) == before {
+        return Err(Fail::new("harness", "output-shape-not-loadable", format!("shape kind {} len {} is not loadable", kind, len)));
+    }
+    st.count(&format!("shape_kind_{}", kind));
+    Ok(())
+}
+
 fn sub_fixed(input: &[u8], st: &mut Stats) -> R {
     let k = idx(input);
     let hdr = words_to_bytes(&header_words((1, 0), 0));
@@ -287,6 +345,7 @@ pub const SUBS: &[Sub] = &[
     Sub { name: "error-kinds", f: sub_error_kinds },
     Sub { name: "fixed-files", f: sub_fixed },
     Sub { name: "files", f: sub_files },
+    Sub { name: "output-shapes", f: sub_output_shapes },
 ];
 
 pub fn run(ctx: &Ctx) {
@@ -294,6 +353,7 @@ pub fn run(ctx: &Ctx) {
     drive_enum(ctx, &SUBS[0], 30 + ctx.n(150, 10_000));
     drive_enum(ctx, &SUBS[1], 8);
     drive_random(ctx, &SUBS[2], ctx.n(1_500, 300_000), 1400);
+    drive_enum(ctx, &SUBS[3], (SHAPE_BASES.len() * SHAPE_OFFS * SHAPE_KINDS) as u64);
     let _ = std::fs::remove_dir_all(verif_root().join("target/c20-tmp"));
 }
 
@@ -301,7 +361,7 @@ pub fn finish(ctx: &Ctx) -> i32 {
     crate::engine::finish(
         ctx,
         Finish {
-            rule: "files: generated modules (ordered / interleaved / wild), half of them with 1-3 stacked byte-level faults, raw random bytes, 0-19 byte prefixes of a header, header + junk, and fixed files (empty, 4 bytes, header only, the historical crashers, 64 KiB of OpNop). Oracle: spawn target/dis/release/rspirv-dis <file> (built from /repo's working tree): exit status 0, no panic message on stderr, stdout == disassemble() + newline if load_bytes succeeds in-process, else the Display of the loading error + newline, which must be a single line. non-trivial = file longer than 24 bytes; distinct = hash of the file.",
+            rule: "files: generated modules (ordered / interleaved / wild), half of them with 1-3 stacked byte-level faults, raw random bytes, 0-19 byte prefixes of a header, header + junk, loadable modules whose disassembly has a line of every length around each power of two from 256 to 65536 bytes as the last line / in the middle / before a function (2700 files), and fixed files (empty, 4 bytes, header only, the historical crashers, 64 KiB of OpNop). Oracle: spawn target/dis/release/rspirv-dis <file> (built from /repo's working tree): exit status 0, no panic message on stderr, stdout == disassemble() + newline if load_bytes succeeds in-process, else the Display of the loading error + newline, which must be a single line. non-trivial = file longer than 24 bytes; distinct = hash of the file.",
             assumptions: vec!["the in-process library call is the reference for the text; its own correctness is C07/C03's subject".into()],
             trusted_base: vec!["OS process interface".into(), "cargo build of /repo's rspirv-dis".into()],
         },
